@@ -271,8 +271,8 @@ class CFGrid(Generic[Topology], DimensionConvention[CFGridKind, CFGridIndex]):
         ]
 
         bounds_names: list[Hashable | None] = [
-            self.topology.longitude.attrs.get('bounds', None),
-            self.topology.latitude.attrs.get('bounds', None),
+            utils.get_bounds_name(self.topology.longitude),
+            utils.get_bounds_name(self.topology.latitude),
         ]
         for bounds_name in bounds_names:
             if bounds_name is not None and bounds_name in self.dataset.variables:
@@ -338,7 +338,7 @@ class CFGrid1DTopology(CFGridTopology):
 
     def _get_or_make_bounds(self, coordinate: xarray.DataArray) -> xarray.DataArray:
         with suppress(KeyError):
-            bounds = self.dataset[coordinate.attrs['bounds']]
+            bounds = self.dataset[utils.get_bounds_name(coordinate)]
             if (
                 len(bounds.dims) == 2
                 and bounds.dims[0] == coordinate.dims[0]
@@ -490,7 +490,7 @@ class CFGrid2DTopology(CFGridTopology):
     def _get_or_make_bounds(self, coordinate: xarray.DataArray) -> xarray.DataArray:
         # Use the bounds defined on the coordinate itself, if any.
         with suppress(KeyError):
-            bounds = self.dataset[coordinate.attrs['bounds']]
+            bounds = self.dataset[utils.get_bounds_name(coordinate)]
             if (
                 len(bounds.dims) == 3
                 and bounds.dims[0] == self.y_dimension
